@@ -40,7 +40,7 @@ def schema(py, cls: str) -> Dict[str, str]:
 
 
 def cli_dests(py) -> Dict[str, ast.Call]:
-    fn = py.func("__init__.get_command_line_arguments")
+    fn = py.ifunc("__init__.get_command_line_arguments")      # canonical form: partial(parser.add_argument, ...) resolved
     out: Dict[str, ast.Call] = {}
     for c in py.walk_calls(fn):
         if call_name(c) != "parser.add_argument":
